@@ -20,7 +20,7 @@ def analyse(ck, mode, optical, radio, staged):
     m = Model(mode=mode, optical=optical, radio=radio, write_stages=staged)
     paths = m.run()
     ck.add_functions(m.interp)
-    tag = "compute[%s,opt=%d,rad=%d,staged=%d]" % (mode, optical, radio, staged)
+    tag = "compute[%s,opt=%d,rad=%d,staged=%s]" % (mode, optical, radio, "default" if staged is None else "%d" % staged)
     partial = any(p.kind == "unsupported" for p in paths)
     if partial:
         # not every path could be explored (e.g. the writer branches at each checkpoint): the explored ones are still checked -- a
@@ -100,7 +100,7 @@ def analyse(ck, mode, optical, radio, staged):
             chk("lemma.prefix", ok and len(writes) >= n_ops, "the file is written only inside StagedWriter operations, so after a failure or kill between operations it is the snapshot after the last completed one: a prefix (in program order) of the final table",
                 "%d operations, %d writes" % (n_ops, len(writes)))
         # columns are never modified after being added
-        changed = [n for n, c in p.state["tbl"].columns.items() if isinstance(c, A) and c.version != 0]
+        changed = [n for n, c in p.state["tbl"].columns.items() if isinstance(c, A) and c.version != 0] + ["%s (%s)" % (o[1], o[2]) for o in ops if o[0] == "recol"]
         chk("frame.columns_immutable", not changed, "no column is modified after it has been added (the prefix equals the corresponding part of the final table)", str(changed))
 
 
@@ -143,6 +143,60 @@ def analyse_faults(ck, mode):
                       note="" if ok else "operations on the failing path: %s; not in the failure-free run: %s" % (got[-3:], extra),
                       witness=None if ok else {"mode": mode, "failing stage": stage, "extra operations": [str(e)[:80] for e in extra]},
                       replay_out=None if ok else native_fault(ck, stage))
+
+
+def analyse_write_faults(ck, mode):
+    """a table write that raises OSError (full disk, lost mount): the stage has NOT completed with the file holding its columns, so the run must
+    not go on as if it had -- the error leaves compute(); nothing is added to the table afterwards"""
+    for k in (1, 2, 5):
+        m = Model(mode=mode, optical=True, radio=True, write_stages=True, fail_write=k)
+        paths = m.run()
+        tag = "compute[%s,write-%d-fails]" % (mode, k)
+        hit = [p for p in paths if any(o[0] == "write-failed" for o in p.state["ops"])]
+        if any(p.kind == "unsupported" for p in paths) or not hit:
+            o = ck.ob("%s/exec" % tag, "exec")
+            o.note = "; ".join("%s %s" % (p.kind, p.exc) for p in paths)[:300]
+            ck._undecided(o, None)
+            continue
+        for p in hit:
+            ops = p.state["ops"]
+            i = [o[0] for o in ops].index("write-failed")
+            later = [o for o in ops[i + 1:] if o[0] in ("cols", "meta", "recol")]
+            ok = p.kind == "raise" and not later
+            ck.direct("%s/post.write_error_not_swallowed" % tag, ok, "frame", "ghost-state log of the symbolic execution (table write raises OSError)",
+                      clause="a staged write that fails is not passed over in silence: the run does not continue to later stages with an output file that lacks the completed stage",
+                      note="" if ok else "path ends with %s; operations after the failed write: %s" % (p.kind, [opkey(o)[:2] for o in later][:3]),
+                      witness=None if ok else {"mode": mode, "failing write": k}, replay_out=None if ok else native_write_fault(ck))
+
+
+def native_write_fault(ck):
+    """real compute(write_stages=True) with an output path inside a directory that does not exist: the first staged write cannot succeed"""
+    import contextlib
+    import importlib
+    import io
+
+    import dask
+    from nuspacesim.config import NssConfig
+
+    C = importlib.import_module("nuspacesim.compute")
+    tmp = tempfile.mkdtemp(prefix="c17w_", dir=os.environ.get("XDG_RUNTIME_DIR") or None)
+    out = os.path.join(tmp, "no-such-directory", "f.fits")
+    cfg = NssConfig()
+    cfg.simulation.thrown_events = 100
+    try:
+        with contextlib.redirect_stdout(io.StringIO()), contextlib.redirect_stderr(io.StringIO()), dask.config.set(scheduler="synchronous"), np.errstate(all="ignore"):
+            np.random.seed(ck.seed)
+            try:
+                C.compute(cfg, output_file=out, write_stages=True)
+            except OSError as ex:
+                return {"violated": False, "observed": "raised %r" % ex}
+        return {"violated": True, "input": {"output_file": "<tmp>/no-such-directory/f.fits", "write_stages": True, "thrown_events": 100}, "observed": {"compute returned normally": True, "output file exists": os.path.exists(out)}}
+    except Exception as ex:
+        return {"violated": None, "note": "native run failed: %r" % ex}
+    finally:
+        import shutil
+
+        shutil.rmtree(tmp, ignore_errors=True)
 
 
 def native_fault(ck, stage):
@@ -362,10 +416,11 @@ def run(ck):
     if ck.tier == "thorough":
         combos += [("Diffuse", True, False), ("Diffuse", False, True), ("Target", False, True), ("Diffuse", False, False)]
     for mode, o, r in combos:
-        for staged in (True, False):
+        for staged in (True, False) + ((None,) if (o and r) else ()):
             analyse(ck, mode, o, r, staged)
     for mode in ("Diffuse", "Target"):
         analyse_faults(ck, mode)
+        analyse_write_faults(ck, mode)
     ck.bounded_run("fresh table per run; results file left by an earlier run (thorough)", lambda: native_tables(ck),
                    design="results_table.init twice in one process with the first table filled in between; thorough: compute() with 60 events onto the file of a 1500-event run, staged writing on")
     if ck.tier == "thorough":
